@@ -131,18 +131,40 @@ func floodApply(op string, raw json.RawMessage) interface{} {
 	}
 	var out []map[string]interface{}
 	for _, st := range a.Steps {
-		switch st.K {
-		case "update":
-			ru := &routingUpdate{NodeID: string(verifUnhex(st.U.Node)), UpdateID: string(verifUnhex(st.U.ID)), UpdateEpoch: st.U.Epoch,
-				UpdateSequence: st.U.Seq, Connections: unhexKeys(st.U.Conns), ForwardingNode: string(verifUnhex(st.U.Fwd)),
-				SuspectedDuplicate: st.U.Susp}
-			s.handleRoutingUpdate(ru, string(verifUnhex(st.Recv)))
-		case "remove":
-			s.removeConnection(string(verifUnhex(st.Peer)))
+		st := st
+		returned := verifTimed(10*time.Second, func() {
+			switch st.K {
+			case "update":
+				ru := &routingUpdate{NodeID: string(verifUnhex(st.U.Node)), UpdateID: string(verifUnhex(st.U.ID)), UpdateEpoch: st.U.Epoch,
+					UpdateSequence: st.U.Seq, Connections: unhexKeys(st.U.Conns), ForwardingNode: string(verifUnhex(st.U.Fwd)),
+					SuspectedDuplicate: st.U.Susp}
+				s.handleRoutingUpdate(ru, string(verifUnhex(st.Recv)))
+			case "remove":
+				s.removeConnection(string(verifUnhex(st.Peer)))
+			case "originate":
+				s.sendRoutingUpdate(0)
+			}
+		})
+		if !returned {
+			// the call never came back (a lock is held for ever): everything after it would hang too
+			out = append(out, map[string]interface{}{"wedged": true})
+			break
+		}
+		// a lock leaked by the call shows at the next acquisition: probe the locks the other sessions need
+		if !verifTimed(2*time.Second, func() {
+			s.knownNodeLock.Lock()
+			s.knownNodeLock.Unlock() //nolint:staticcheck
+			s.seenUpdatesLock.Lock()
+			s.seenUpdatesLock.Unlock() //nolint:staticcheck
+			s.connLock.Lock()
+			s.connLock.Unlock() //nolint:staticcheck
+		}) {
+			out = append(out, map[string]interface{}{"wedged": true, "after": "lock left held"})
+			break
+		}
+		if st.K == "remove" {
 			// the session's own channel disappears with it
 			delete(chans, string(verifUnhex(st.Peer)))
-		case "originate":
-			s.sendRoutingUpdate(0)
 		}
 		verifWaitFlood()
 		obs := map[string]interface{}{}
